@@ -506,7 +506,13 @@ class Inliner:
                                                kind, target)
         self.counter += 1
         suffix = f'__inl{self.counter}'
-        assigned = _assigned_names(body)
+        outer = {n_ for st_ in body for x_ in ast.walk(st_)
+                 if isinstance(x_, (ast.Nonlocal, ast.Global))
+                 for n_ in x_.names}
+        if outer:
+            body = [st_ for st_ in body
+                    if not isinstance(st_, ast.Nonlocal)]
+        assigned = _assigned_names(body) - outer
         ren = {n: n + suffix for n in assigned
                if n not in env and n in self.caller_names}
         # "t = h(..)" where h ends in "return r" (r a local of h): r becomes
@@ -1377,6 +1383,28 @@ class Inliner:
                     st.value, ast.YieldFrom) and isinstance(
                         st.value.value, ast.Call):
                 call, kind = st.value.value, 'yieldfrom'
+            if call is None and isinstance(st, ast.AugAssign) and \
+                    isinstance(st.value, ast.Call) and isinstance(
+                        st.target, ast.Name):
+                h, skip = self.helper_for(st.value, cls, closures)
+                if h is not None and h is not owner and self.eligible(h) \
+                        and not _has_yield(h) and st.target.id not in \
+                        _assigned_names(h.body):
+                    # "x += h(..)": the helper's value first goes into a
+                    # temporary (h does not touch x, so the order in which
+                    # x is read and h is run is immaterial)
+                    self.counter += 1
+                    tmp = f'{st.target.id}__aug{self.counter}'
+                    a = ast.Assign(targets=[ast.Name(id=tmp,
+                                                     ctx=ast.Store())],
+                                   value=st.value)
+                    st.value = ast.Name(id=tmp, ctx=ast.Load())
+                    ast.copy_location(a, st)
+                    ast.copy_location(a.targets[0], st)
+                    ast.copy_location(st.value, st)
+                    body.insert(i, a)
+                    changed = True
+                    continue
             if call is not None:
                 h, skip = self.helper_for(call, cls, closures)
                 if h is not None and h is not owner and self.eligible(h):
